@@ -1275,6 +1275,10 @@ IndividualTable_get_row(IndividualTable *self, PyObject *args)
     if (!PyArg_ParseTuple(args, "n", &row_id)) {
         goto out;
     }
+    if (row_id != (Py_ssize_t) (tsk_id_t) row_id) {
+        handle_library_error(TSK_ERR_INDIVIDUAL_OUT_OF_BOUNDS);
+        goto out;
+    }
     err = tsk_individual_table_get_row(self->table, (tsk_id_t) row_id, &individual);
     if (err != 0) {
         handle_library_error(err);
@@ -1880,6 +1884,10 @@ NodeTable_get_row(NodeTable *self, PyObject *args)
     if (!PyArg_ParseTuple(args, "n", &row_id)) {
         goto out;
     }
+    if (row_id != (Py_ssize_t) (tsk_id_t) row_id) {
+        handle_library_error(TSK_ERR_NODE_OUT_OF_BOUNDS);
+        goto out;
+    }
     err = tsk_node_table_get_row(self->table, (tsk_id_t) row_id, &node);
     if (err != 0) {
         handle_library_error(err);
@@ -2455,6 +2463,10 @@ EdgeTable_get_row(EdgeTable *self, PyObject *args)
         goto out;
     }
     if (!PyArg_ParseTuple(args, "n", &row_id)) {
+        goto out;
+    }
+    if (row_id != (Py_ssize_t) (tsk_id_t) row_id) {
+        handle_library_error(TSK_ERR_EDGE_OUT_OF_BOUNDS);
         goto out;
     }
     err = tsk_edge_table_get_row(self->table, (tsk_id_t) row_id, &edge);
@@ -3055,6 +3067,10 @@ MigrationTable_get_row(MigrationTable *self, PyObject *args)
         goto out;
     }
     if (!PyArg_ParseTuple(args, "n", &row_id)) {
+        goto out;
+    }
+    if (row_id != (Py_ssize_t) (tsk_id_t) row_id) {
+        handle_library_error(TSK_ERR_MIGRATION_OUT_OF_BOUNDS);
         goto out;
     }
     err = tsk_migration_table_get_row(self->table, (tsk_id_t) row_id, &migration);
@@ -3667,6 +3683,10 @@ SiteTable_get_row(SiteTable *self, PyObject *args)
     if (!PyArg_ParseTuple(args, "n", &row_id)) {
         goto out;
     }
+    if (row_id != (Py_ssize_t) (tsk_id_t) row_id) {
+        handle_library_error(TSK_ERR_SITE_OUT_OF_BOUNDS);
+        goto out;
+    }
     err = tsk_site_table_get_row(self->table, (tsk_id_t) row_id, &site);
     if (err != 0) {
         handle_library_error(err);
@@ -4240,6 +4260,10 @@ MutationTable_get_row(MutationTable *self, PyObject *args)
         goto out;
     }
     if (!PyArg_ParseTuple(args, "n", &row_id)) {
+        goto out;
+    }
+    if (row_id != (Py_ssize_t) (tsk_id_t) row_id) {
+        handle_library_error(TSK_ERR_MUTATION_OUT_OF_BOUNDS);
         goto out;
     }
     err = tsk_mutation_table_get_row(self->table, (tsk_id_t) row_id, &mutation);
@@ -4849,6 +4873,10 @@ PopulationTable_get_row(PopulationTable *self, PyObject *args)
     if (!PyArg_ParseTuple(args, "n", &row_id)) {
         goto out;
     }
+    if (row_id != (Py_ssize_t) (tsk_id_t) row_id) {
+        handle_library_error(TSK_ERR_POPULATION_OUT_OF_BOUNDS);
+        goto out;
+    }
     err = tsk_population_table_get_row(self->table, (tsk_id_t) row_id, &population);
     if (err != 0) {
         handle_library_error(err);
@@ -5351,6 +5379,10 @@ ProvenanceTable_get_row(ProvenanceTable *self, PyObject *args)
         goto out;
     }
     if (!PyArg_ParseTuple(args, "n", &row_id)) {
+        goto out;
+    }
+    if (row_id != (Py_ssize_t) (tsk_id_t) row_id) {
+        handle_library_error(TSK_ERR_PROVENANCE_OUT_OF_BOUNDS);
         goto out;
     }
     err = tsk_provenance_table_get_row(self->table, (tsk_id_t) row_id, &provenance);
